@@ -530,6 +530,20 @@ func (ctx *context) compareNodesetsAndPush(
 		return
 	}
 
+	// A node-set that is compared with a boolean is converted with
+	// boolean() first (XPath 1.0 section 3.4), not value by value: it has
+	// nodes, so it is true whatever their string-values are.
+	if isBool(op1) != isBool(op2) {
+		b1, b2 := op1, op2
+		if !isBool(op1) {
+			b1 = NewBoolDatum(true)
+		} else {
+			b2 = NewBoolDatum(true)
+		}
+		ctx.pushDatum(NewBoolDatum(boolCompare(b1, b2)))
+		return
+	}
+
 	ctx.compareAndPushNodesets(
 		set1, set2, boolCompare, litCompare, numCompare)
 }
